@@ -155,6 +155,10 @@ theorem bwLoop_ok (r : Int) (p : Chunk) (carry now : Int) :
   · rw [if_neg hc]
     exact ⟨rfl, by simp [PcWF]⟩
 
+@[simp] theorem bwLoop_neg (p : Chunk) (carry now : Int) :
+    bwLoop .fixed (-1) p carry now = .nap (now + max carry 0) (.bwFinal p carry now) := by
+  simp [bwLoop]
+
 /-- **Stage conservation.** For every data-preserving toxic with valid attributes, every
 event that the stage can receive at a well-formed program counter leads to a well-formed
 program counter (no panic) and changes the held bytes only as `Conserves` allows: a
@@ -248,15 +252,19 @@ theorem step_conserves (cfg : Cfg) (hs : Safe cfg) (st : StubSt) (pc : Pc) (ev :
       | toIdle carry => simp at h; obtain ⟨_, rfl⟩ := h; exact ⟨by simp [PcWF], c, rfl, by simp [Pc.held, Next.held]⟩
       | toRet => simp at h; obtain ⟨_, rfl⟩ := h; exact ⟨by simp [PcWF], c, rfl, by simp [Pc.held, Next.held]⟩
       | slicerGap rest offs base ts =>
-        cases cfg <;> simp at h
+        simp at h
         obtain ⟨_, rfl⟩ := h
         exact ⟨by simpa [PcWF] using hwf, c, rfl, by simp [Pc.held, Next.held, Wake.held]⟩
       | bwLoop p carry =>
-        cases cfg <;> simp at h
-        rename_i r
+        simp at h
         obtain ⟨_, rfl⟩ := h
-        have := bwLoop_ok r p carry now
-        exact ⟨this.2, c, rfl, by rw [this.1]; rfl⟩
+        cases cfg with
+        | bandwidth r =>
+          have := bwLoop_ok r p carry now
+          exact ⟨this.2, c, rfl, by rw [this.1]; rfl⟩
+        | _ =>
+          simp only [bwLoop_neg]
+          exact ⟨by simp [PcWF], c, rfl, by simp [Pc.held, Next.held, Wake.held]⟩
       | limitAfter n =>
         cases cfg <;> simp [PcWF] at hwf
         simp [Safe] at hs
@@ -282,6 +290,7 @@ theorem step_conserves (cfg : Cfg) (hs : Safe cfg) (st : StubSt) (pc : Pc) (ev :
         exact ⟨this.2.1 _, Or.inl this.1⟩
       | bwInstal p carry =>
         cases cfg <;> simp [step] at h
+        all_goals try (obtain ⟨_, rfl⟩ := h; exact ⟨by simp [PcWF], Or.inl (by simp [Pc.held, Next.held, Wake.held])⟩)
         rename_i r
         have hwf' : 0 ≤ r ∧ r ≤ Int.tdiv maxInt64 100 ∧ r * 100 < p.data.length := by simpa [PcWF] using hwf
         rw [tdiv_max_100] at hwf'
